@@ -530,6 +530,23 @@ impl G {
         json!({"cond":cond,"ids":ids})
     }
 
+    /// three to five identifiers or-ed together, each one string predicate on the SAME field, drawn
+    /// from a pool of two words and three kinds: the optimiser merges them into one batch in which
+    /// needles repeat
+    pub fn repeat_needle_source(&mut self) -> J {
+        let n = 3 + self.r.below(3);
+        let words = ["ab", "Ba"];
+        let ic = self.r.chance(1, 3);
+        let mut ids = vec![];
+        for i in 0..n {
+            let k = *self.r.pick(&["contains", "contains", "exact", "suffix"]);
+            let p = json!({"t":"pat","k":k,"ic":ic,"a":cps(*self.r.pick(&words))});
+            ids.push(json!([cps(IDENTS[i]), {"t":"map","es":[{"m":"none","c":0,"f":cps("f"),"v":p}]}]));
+        }
+        let cond = (0..n).map(|i| json!({"t":"id","n":cps(IDENTS[i])})).reduce(|l, r| json!({"t":"or","l":l,"r":r})).unwrap();
+        json!({"cond":cond,"ids":ids})
+    }
+
     /// ONE nested block with two or three keys (a conjunction evaluated against the nested object),
     /// plain or negated; optionally two operands read the same member (`x` and `int(x)`).  Documents
     /// hold the object with any subset of the members: the verdict must not depend on how many
@@ -1603,6 +1620,34 @@ pub fn gen_cases(topic: &str, seed: u64, n: usize, path: &str) -> Result<(), Str
         w.flush().map_err(|e| e.to_string())?;
         return Ok(());
     }
+    if topic == "bigc" {
+        // C08: the count is over DISTINCT members also for lists of 64 and more (slow_aho switches
+        // from a bitmap to a set there): short values in which one member occurs several times
+        let mut g = G::new(seed ^ 0xB16C);
+        let mut w = BufWriter::new(File::create(path).map_err(|e| e.to_string())?);
+        for _ in 0..n {
+            let nn = *g.r.pick(&[63usize, 64, 65, 70]);
+            let vs: Vec<J> = (0..nn).map(|k| json!({"t":"pat","k":"contains","ic":false,"a":cps(&format!("m{}z", k))})).collect();
+            let c = 2 + g.r.below(3);
+            let (m, cc) = if g.r.chance(1, 4) { ("all", 0) } else { ("of", c) };
+            let src = json!({"cond":{"t":"id","n":cps("A")},"ids":[[cps("A"),{"t":"map","es":[{"m":m,"c":cc,"f":cps("f"),"v":{"t":"list","vs":vs}}]}]]});
+            let a = g.r.below(nn);
+            let b = (a + 1 + g.r.below(nn - 1)) % nn;
+            let rep = |k: usize, times: usize| -> String { (0..times).map(|_| format!("m{}z", k)).collect() };
+            let docs = vec![
+                obj(vec![("f".into(), s_node(&rep(a, c)))]),                                  // one member, c times
+                obj(vec![("f".into(), s_node(&format!("{}{}", rep(a, c - 1), rep(b, 1))))]),   // two members, c occurrences
+                obj(vec![("f".into(), s_node(&(0..c).map(|i| format!("m{}z", (a + i) % nn)).collect::<String>()))]),  // c members
+                obj(vec![("f".into(), s_node(&format!("{}x{}", rep(a, 1), rep(a, 1))))]),
+                obj(vec![]),
+            ];
+            let c = json!({"topic":"bigc","oracle":true,"wt":true,"src":src,"docs":docs,
+                           "plan":{"tri":true,"sws":[[], [true,true,true,true]]}});
+            writeln!(w, "{}", c).map_err(|e| e.to_string())?;
+        }
+        w.flush().map_err(|e| e.to_string())?;
+        return Ok(());
+    }
     if topic == "bigq" {
         // C12: quantified lists of 65..200 needles (slow_aho: hit sets of 64 and more members), in
         // runs of cases whose sizes differ, each executed again later and from fresh threads - a
@@ -1762,7 +1807,8 @@ pub fn gen_cases(topic: &str, seed: u64, n: usize, path: &str) -> Result<(), Str
         let topic = if topic == "nm" { "opt" } else { topic };
         let src = match shape { 0 | 1 => g.matrix_source(), 2 => g.nested_merge_source(),
                                 3 if matches!(topic, "pure" | "opt" | "find") => g.deep_nested_source(),
-                                4 if matches!(topic, "find" | "opt" | "lang") => g.nested_multi_source(), _ => g.source(3) };
+                                4 if matches!(topic, "find" | "opt" | "lang") => g.nested_multi_source(),
+                                4 | 5 if matches!(topic, "pure" | "perm") => g.repeat_needle_source(), _ => g.source(3) };
         let nd = 3 + g.r.below(4);
         let complete = matches!(topic, "opt" | "perm") && mode >= 4 && mode < 9;
         let docs: Vec<J> = (0..nd)
@@ -2010,6 +2056,47 @@ pub fn gen_cases(topic: &str, seed: u64, n: usize, path: &str) -> Result<(), Str
                        "plan":{"tri":true,"sws":[[], [true,true,true,true]],"reprs":["json","hm","own","doc"]}})
             }
             // C09: random and near-boundary 64-bit values against random constants
+            // a bare YAML number above i64::MAX as the constant (serde_yaml carries it as u64; the
+            // parser reads it as a float): documents hold the same value as u64, the value with
+            // the same 64-bit pattern as i64 (constant - 2^64), neighbours, floats and texts
+            "num" if mode == 0 => {
+                let big = ["9223372036854775808", "18446744073709551615", "18446744073709551611", "10000000000000000000", "9223372036854775809"];
+                let ctext = *g.r.pick(&big);
+                let wrapped = format!("{}", (ctext.parse::<u128>().unwrap_or(0) as i128) - (1i128 << 64));
+                let e = match g.r.below(2) {
+                    0 => json!({"m":"none","c":0,"f":cps("f"),"v":{"t":"num","n":int_node(ctext)}}),
+                    _ => json!({"m":"none","c":0,"f":cps("f"),"v":{"t":"list","vs":[{"t":"num","n":int_node("3")}, {"t":"num","n":int_node(ctext)}]}}),
+                };
+                let cond = if g.r.chance(1, 4) { json!({"t":"not","e":{"t":"id","n":cps("A")}}) } else { json!({"t":"id","n":cps("A")}) };
+                let src = json!({"cond":cond,"ids":[[cps("A"),{"t":"map","es":[e]}]]});
+                // float documents only next to constants that an f64 carries exactly (2^63, 10^19)
+                let mut vals = vec![i_node(ctext), i_node(&wrapped), i_node("-1"), i_node("0"), i_node("3"), i_node("9223372036854775807"),
+                                    i_node("-9223372036854775808"), s_node(ctext), s_node(&wrapped), i_node(*g.r.pick(&big))];
+                if ctext == "9223372036854775808" || ctext == "10000000000000000000" {
+                    vals.push(f_node(&format!("{}.0", ctext)));
+                    vals.push(f_node("1.5"));
+                }
+                let docs: Vec<J> = vals.into_iter().map(|v| obj(vec![("f".into(), v)])).collect();
+                json!({"topic":"num","oracle":true,"wt":true,"src":src,"docs":docs,
+                       "plan":{"tri":true,"sws":[[], [true,true,true,true]]}})
+            }
+            // str(f) == str(g) in the condition: the decimal text of every integer kind
+            "num" if mode == 1 => {
+                let op = "eq";
+                let src = json!({"cond":{"t":"cmp","op":op,"l":{"t":"cast","k":"str","f":cps("f")},"r":{"t":"cast","k":"str","f":cps("g")}},
+                                 "ids":[[cps("A"),{"t":"map","es":[{"m":"none","c":0,"f":cps("h"),"v":{"t":"pat","k":"any","ic":false,"a":[]}}]}]]});
+                let pool = ["18446744073709551615", "9223372036854775808", "9223372036854775807", "-9223372036854775808", "-1", "0", "7"];
+                let mut docs = vec![];
+                for _ in 0..8 {
+                    let a = *g.r.pick(&pool);
+                    let b = if g.r.chance(2, 3) { a } else { *g.r.pick(&pool) };
+                    let fv = if g.r.chance(3, 4) { i_node(a) } else { s_node(a) };
+                    let gv = if g.r.chance(1, 2) { i_node(b) } else { s_node(b) };
+                    docs.push(obj(vec![("f".into(), fv), ("g".into(), gv)]));
+                }
+                json!({"topic":"num","oracle":true,"wt":true,"src":src,"docs":docs,
+                       "plan":{"tri":true,"sws":[[], [true,true,true,true]]}})
+            }
             "num" => {
                 let float = g.r.chance(1, 3);
                 let ctext = if float { g.flt_text() } else if g.r.chance(1, 2) { g.int_text() } else { format!("{}", g.r.next() as i64) };
